@@ -256,7 +256,7 @@ P("C17", module="AJ.Props.C17All", extra=[("AJ.Props.SlotCor", ["C17"]), ("AJ.Pr
   rule="exhaustive enumeration: all 65536 \\uXXXX units x 3 hex-case spellings, surrogate pairs (all 2^20 in the thorough tier), all 256 bytes and all 65536 byte pairs through "
        "serialize+deserialize; non-trivial = non-ASCII unit / pair / content containing an escaped or >=0x80 byte; distinct by code unit(s) or content")
 
-P("C18", level_text="Theorems for all values: != is the negation of ==, <= is < or ==, at most one of < == > ; compare(b,a) is the reverse of compare(a,b) for all values without "
+P("C18", module="AJ.Props.C18All", extra=[("AJ.Props.C18", ["C18"]), ("AJ.Props.C18Gen", ["C18"])], level_text="C18.comparison_table_is_source: on every ordered pair of 18 values (null, booleans, integers at the 64-bit limits, float, double, NaN, strings, arrays, objects) the model's answers to == != < <= > >= are those obtained on every run from the compiled library (translator tie, 324 pairs evaluated in the kernel). Theorems for all values: != is the negation of ==, <= is < or ==, at most one of < == > ; compare(b,a) is the reverse of compare(a,b) for all values without "
   "repeated keys (hence == symmetric, < iff >), with the kernel-checked counterexample for repeated keys; integers compare exactly over the whole int64/uint64 range in all sign "
   "combinations, otherwise as doubles, NaN never equal; strings/raw equal iff bytes identical; arrays element-wise; objects member-wise regardless of order; null only null. "
   "All pairs over a pool of ~150 values x both orders and variant-vs-scalar forms are executed on the library; laws and values are judged on its answers.",
